@@ -332,23 +332,35 @@ fn pg_array_first_element(s: &str) -> Option<String> {
     Some(out)
 }
 
+type Template = Result<(Vec<Token>, Vec<usize>), String>;
+
 struct Templates {
-    map: HashMap<(Pos, Dialect), Option<(Vec<Token>, Vec<usize>)>>,
+    map: HashMap<(Pos, Dialect), Option<Template>>,
 }
 
 impl Templates {
-    fn get(&mut self, p: Pos, d: Dialect) -> &Option<(Vec<Token>, Vec<usize>)> {
+    /// The token sequence of the position rendered with a plain marker value, and where the marker sits.
+    /// `Err`: even the plain value does not come out as one literal token (reported by the caller).
+    fn get(&mut self, p: Pos, d: Dialect) -> &Option<Template> {
         self.map.entry((p, d)).or_insert_with(|| {
-            let sql = render_text(p, d, MARK)?;
-            let toks = lex(d, &sql).expect("marker rendering must lex");
+            let sql = match guard(|| render_text(p, d, MARK)) {
+                Ok(s) => s?,
+                Err(e) => return Some(Err(format!("rendering with the plain value {MARK} panicked: {e}"))),
+            };
+            let toks = match lex(d, &sql) {
+                Ok(t) => t,
+                Err(e) => return Some(Err(format!("rendering with the plain value {MARK} does not lex: {sql}: {}", e.msg))),
+            };
             let slots: Vec<usize> = toks
                 .iter()
                 .enumerate()
                 .filter(|(_, t)| slot_text(p, &t.tok).as_deref() == Some(MARK))
                 .map(|(i, _)| i)
                 .collect();
-            assert!(!slots.is_empty(), "marker not found in {sql}");
-            Some((toks, slots))
+            if slots.is_empty() {
+                return Some(Err(format!("the plain value {MARK} is not written as a literal: {sql}")));
+            }
+            Some(Ok((toks, slots)))
         })
     }
 }
@@ -373,7 +385,12 @@ fn check_text(
         return; // no representation for NUL in Postgres / SQLite text (property's own exclusion)
     }
     let (tt, slots) = match tpl.get(p, d) {
-        Some(x) => x.clone(),
+        Some(Ok(x)) => x.clone(),
+        Some(Err(e)) => {
+            rep.eval();
+            rep.violation("R.literal.lex", d.name(), format!("{p:?}: plain value"), json!({"position": format!("{p:?}"), "error": e}), ctx.shard, n);
+            return;
+        }
         None => return,
     };
     rep.eval();
@@ -732,6 +749,7 @@ pub fn check(ctx: &Ctx, rep: &mut Report) {
         if !ctx.wants(n) {
             continue;
         }
+        crate::apply::set_route_seed(ctx.seed ^ n.wrapping_mul(0x9E3779B97F4A7C15));
         let mut rng = ctx.rng("rand", k);
         let v = rng.string_from(&ALPHA, 64, true);
         let p = *rng.pick(&TEXT_POSITIONS);
@@ -803,6 +821,7 @@ pub fn check(ctx: &Ctx, rep: &mut Report) {
         if !ctx.wants(n) {
             continue;
         }
+        crate::apply::set_route_seed(ctx.seed ^ n.wrapping_mul(0x9E3779B97F4A7C15));
         let mut rng = ctx.rng("bytes", k);
         let len = rng.below(40);
         let b: Vec<u8> = (0..len).map(|_| rng.below(256) as u8).collect();
